@@ -7,6 +7,16 @@ NOTES = ("All checks: bin/check <id>. Each run regenerates coq/Gen from /repo, r
          "Known findings: KNOWN_FINDINGS.txt.")
 NOT_APPLICABLE = {}
 CLAIMED = {
+    "C10": {
+        "text": "Obligations proved over the stripped runtime regenerated on every run (garble's own stripRuntime applied to the toolchain's runtime, callees "
+                "resolved by go/types): no print/println builtin call is left outside print.go; the three required strips exist and call nothing; a checked "
+                "closure theorem shows the generated set contains every function that can reach a raw stderr writer, and the only calls from outside the printing "
+                "files into that set are the hexdump marker callbacks. Tied by a 21-kind crash catalogue x GOTRACEBACK run against `garble -tiny` and the regular "
+                "build (stderr exactly the program's own lines, equal exit status and stdout, Caller reports no file and line 1). Partial: calls through function "
+                "values, interfaces and assembly are not in the graph.",
+        "note": "Trusted: Coq kernel (vm_compute over the generated graph); the graph generator (oracle + go/types); the crash catalogue samples behaviours. No axioms.",
+        "technique": "Coq-checked closure and frontier obligations over a regenerated call graph + crash catalogue differential",
+    },
     "C17": {
         "text": "Theorems over a transition system (shared disk, exclusive lock, any number of processes, kills at every step): mutual exclusion of check/build/"
                 "stamp/use, the invariant 'stamp present implies linker complete whenever the lock is free', and 'whoever runs the cached linker holds the lock "
